@@ -258,13 +258,14 @@ def runReq (toks : List String) : String :=
     let recu := isRecursive p.terms p.id
     let fuel := if recu then fuelR else fuelN
     let mfuel := if recu then fuel + fuel / 2 + 6 else 3 * fuel + 20
-    let oa := runProg { cartDropsErr := true } p mfuel v
-    let ofx := runProg { cartDropsErr := false } p mfuel v
+    let oa := runProg { cartDropsErr := true, pathDropsErr := true } p mfuel v
+    let oc := runProg { cartDropsErr := false, pathDropsErr := true } p mfuel v
+    let ofx := runProg { cartDropsErr := false, pathDropsErr := false } p mfuel v
     let os := eval fuel 0 (preludeEnv ds) t v
     -- F: inside the proved fragment and no call reaches the prelude (the theorem is stated for the empty prelude)
     let preLen := (compile c01Natives ds .id).terms.length - 1
     let frag := inFragment t && (reach p.terms.toArray [p.id] []).all (· ≥ preLen)
-    "ok " ++ (if recu then "R" else "N") ++ (if frag then "F" else "") ++ " | " ++ showOut limit oa ++ " | " ++ showOut limit ofx ++ " | " ++ showOut limit os
+    "ok " ++ (if recu then "R" else "N") ++ (if frag then "F" else "") ++ " | " ++ showOut limit oa ++ " | " ++ showOut limit oc ++ " | " ++ showOut limit ofx ++ " | " ++ showOut limit os
 
 /-! ### the model's table in the syntax of Rust's `Debug` for `compile::Term` -/
 def rustStr (s : String) : String :=
